@@ -1,7 +1,7 @@
 """C15 — wire types: code tables, serializer shape, reader/writer field tables, duplicate guards."""
 import re
 
-from .common import fkey, where, short, controlling_comparisons, arg_is_local, block_line, forward_taint, CORE, SERVER, TYPES
+from .common import control, fkey, where, short, controlling_comparisons, arg_is_local, block_line, forward_taint, CORE, SERVER, TYPES
 from ..facts import is_test_body
 from ..facts import op_place, op_const, AnchorLost
 from .. import flow
@@ -302,11 +302,14 @@ def r5_acceptance_table(ctx):
 def r6_no_handmade_json(ctx):
     """wire JSON is produced by serde_json, never assembled with format!: no format!-built string reaches a place where it
     is taken as JSON (RawValue::from_string, a parse into Box<RawValue>, the connection sink)"""
-    F, R = ctx.F, ctx.R
+    _handmade_scan(ctx.F, ctx.R, (CORE, SERVER, TYPES), 3)
+
+
+def _handmade_scan(F, R, crates, floor):
     SINK = r"RawValue::from_string$|MethodSink::(send|try_send|send_timeout)$|^serde_json::(de::)?from_str$"
     n = 0
     for b in F.real_bodies():
-        if b.crate not in (CORE, SERVER, TYPES) or is_test_body(b):
+        if b.crate not in crates or is_test_body(b):
             continue
         sinks = [c for c in b.calls_to(SINK) if not (c.callee or "").endswith("from_str") or (c.ga and "RawValue" in c.ga[-1])]
         if not sinks:
@@ -319,7 +322,14 @@ def r6_no_handmade_json(ctx):
             p = op_place(c.args[argi]) if len(c.args) > argi else None
             bad = p is not None and p["l"] in tainted
             R.check(not bad, "C15.R6", "%s:%s#%d" % (fkey(b), c.name().split("::")[-1], sorted(x.bb for x in sinks).index(c.bb)), "JSON taken here was not assembled with format!", "%s takes a string assembled with format! as JSON (%s): ids / method names that need escaping produce invalid or different JSON" % (short(b.path), short(c.name())), where(c))
-    R.floor("C15.R6", n, 3, "places where a string is taken as wire JSON")
+    R.floor("C15.R6", n, floor, "places where a string is taken as wire JSON")
+
+
+def control_handmade(ctx):
+    control(ctx, "C15.R6", "format! -> RawValue::from_string", lambda r: _handmade_scan(ctx.F, r, ("verif_fixtures",), 1))
+
+
+CONTROLS = [control_handmade]
 
 
 RULES = [r1_code_tables, r2_serializer, r3_field_tables, r4_duplicate_guards, r5_acceptance_table, r6_no_handmade_json]
